@@ -10,7 +10,10 @@ RULE = (
     "slices with register indices): single instructions printed with str() and parsed back with the same flavour; whole "
     "subroutines text->binary->text fixed point (fresh decoder and one decoder object kept for the whole run); every parse with a "
     "fresh flavour object and with a long-lived one after which other flavours were created; instructions printed, changed by "
-    "field assignment and printed again.  Non-trivial = instruction with >=1 operand (single) or subroutine with "
+    "field assignment and printed again; immediates that are numpy integers of every width that holds the value; array-entry / "
+    "array-slice operands (mutable objects) edited in place - on an instruction that was printed before (str, debug_str, f-string, "
+    "Subroutine.__str__) and on an earlier parse result, after which the same text is parsed again - for single instructions and "
+    "for whole subroutines.  Non-trivial = instruction with >=1 operand (single) or subroutine with "
     ">=2 distinct classes; distinct by printed text.  Templates are outside the quantifier"
 )
 ASSUMPTIONS = ["str(instr) is the printed form meant by the property; lineno is not part of instruction identity"]
@@ -113,6 +116,259 @@ def check_sub(j) -> None:
         raise Failure("sub:not-fixed-point:long-lived-decoder", case, f"text->binary->text through a decoder that decoded other subroutines before changed:\n{text1}\n---\n{text4[:600]}")
 
 
+# ------------------------------------------------------------------ numpy integers as immediate values
+
+# every numpy integer type with the interval of values it can hold
+NP_TYPES = {
+    "uint8": (0, 2**8 - 1),
+    "int8": (-(2**7), 2**7 - 1),
+    "uint16": (0, 2**16 - 1),
+    "int16": (-(2**15), 2**15 - 1),
+    "uint32": (0, 2**32 - 1),
+    "int32": (-(2**31), 2**31 - 1),
+    "uint64": (0, 2**64 - 1),
+    "int64": (-(2**63), 2**63 - 1),
+}
+
+
+def np_types_for(v: int):
+    return [t for t, (lo, hi) in NP_TYPES.items() if lo <= v <= hi]
+
+
+def _has_kind(cls, kinds) -> bool:
+    return any(k in kinds for _n, k in g.shape_of(cls))
+
+
+def st_instr_with(fname: str, kinds):
+    from hypothesis import strategies as st
+
+    return st.one_of([g.st_instr_of(c) for c in g.flavour_classes(fname) if _has_kind(c, kinds)])
+
+
+def check_nptype(fname: str, clsname: str, vals, nptypes) -> str:
+    """an immediate whose (in range) value is a numpy integer instead of an int: same printed text duties"""
+    import numpy as np
+    from netqasm.lang.operand import Immediate
+    from netqasm.lang.parsing import deserialize
+
+    cls = g.class_by_name(fname, clsname)
+    kw = {}
+    for (name, kind), v, t in zip(g.shape_of(cls), vals, nptypes):
+        kw[name] = g.operand_from_json(kind, v) if t is None else Immediate(getattr(np, t)(v))
+    instr = cls(**kw)
+    case = {"kind": "nptype", "flavour": fname, "cls": clsname, "vals": vals, "nptypes": nptypes}
+    try:
+        text = str(instr)
+    except Exception as e:
+        raise Failure(f"nptype:print-raises:{fname}:{cls.mnemonic}", case, f"instruction with numpy integer immediates {nptypes} of values {vals} cannot be printed: {type(e).__name__}: {e}")
+    case["text"] = text
+    try:
+        sub = _parse("# NETQASM 0.0\n# APPID 0\n" + text, fname)
+    except Exception as e:
+        raise Failure(f"nptype:parse-raises:{fname}:{cls.mnemonic}", case, f"printed text {text!r} (numpy immediates {nptypes}) does not parse: {type(e).__name__}: {e}")
+    got = sub.instructions
+    if len(got) != 1 or type(got[0]) is not cls or got[0] != instr or got[0] != g.build(cls, vals):
+        raise Failure(f"nptype:parse-differs:{fname}:{cls.mnemonic}", case, f"{text!r} (numpy immediates {nptypes} of values {vals}) parsed back as {[str(i) for i in got]}")
+    back = deserialize(bytes(sub), flavour=g.FLAVOURS[fname]())
+    text3 = "\n".join(str(i) for i in back.instructions)
+    if text3 != text:
+        raise Failure(f"nptype:not-fixed-point:{fname}:{cls.mnemonic}", case, f"text->binary->text changed {text!r} into {text3!r}")
+    return text
+
+
+# ------------------------------------------------------------------ array operands edited in place
+
+PRINT_ROUTES = ["str", "debug_str", "fstring", "subroutine"]
+_ARRAY_FIELDS = {"entry": ["address", "index"], "slice": ["address", "start", "stop"]}
+_JSON_KEY = {"address": "addr", "index": "idx", "start": "start", "stop": "stop"}
+
+
+def _touch(instr, route: str) -> None:
+    """print the instruction the way a log / a user would, result not used"""
+    if route == "str":
+        str(instr)
+    elif route == "debug_str":
+        instr.debug_str
+    elif route == "fstring":
+        f"{instr}"
+    else:
+        from netqasm.lang.subroutine import Subroutine
+
+        str(Subroutine(instructions=[instr], netqasm_version=(0, 0), app_id=0))
+
+
+def _edit_in_place(operand, field: str, jsonval) -> None:
+    """change one attribute of a (mutable) ArrayEntry / ArraySlice; the instruction that holds it is not assigned to"""
+    from netqasm.lang.operand import Address
+
+    setattr(operand, field, Address(jsonval) if field == "address" else g.reg_from_str(jsonval))
+
+
+def _merged(cls, vals, vals2, mask):
+    """JSON values of the instruction after the edits of `mask` (list of [operand position, field])"""
+    import copy
+
+    out = copy.deepcopy(vals)
+    for pos, field in mask:
+        out[pos][_JSON_KEY[field]] = vals2[pos][_JSON_KEY[field]]
+    return out
+
+
+def _apply_mask(instr, cls, vals2, mask) -> None:
+    shape = g.shape_of(cls)
+    for pos, field in mask:
+        _edit_in_place(getattr(instr, shape[pos][0]), field, vals2[pos][_JSON_KEY[field]])
+
+
+def st_mask(cls):
+    from hypothesis import strategies as st
+
+    fields = [[pos, f] for pos, (_n, k) in enumerate(g.shape_of(cls)) for f in _ARRAY_FIELDS.get(k, [])]
+    return st.lists(st.sampled_from(fields), min_size=1, max_size=len(fields), unique_by=lambda x: tuple(x))
+
+
+def check_inplace(fname: str, clsname: str, vals, vals2, mask, route: str) -> str:
+    """History: print - parse - edit the array operands of the parse result in place - parse the same text again - edit the
+    array operands of the printed instruction in place - print again.  At every moment the printed text is that of the
+    instruction as it is at that moment, and the same text always parses to the same instruction."""
+    cls = g.class_by_name(fname, clsname)
+    instr = g.build(cls, vals)
+    ref = g.build(cls, vals)  # independent objects, never printed before and never edited
+    exp_vals = _merged(cls, vals, vals2, mask)
+    exp = g.build(cls, exp_vals)
+    text_exp = str(exp)  # first print of a fresh object
+    _touch(instr, route)
+    text0 = str(instr)
+    case = {"kind": "inplace", "flavour": fname, "cls": clsname, "vals": vals, "vals2": vals2, "mask": mask, "route": route, "text": text0}
+    sig = f"{fname}:{cls.mnemonic}"
+
+    def parse1(text, what):
+        try:
+            got = _parse(text, fname).instructions
+        except Exception as e:
+            raise Failure(f"inplace:parse-raises:{sig}", case, f"{what}: {text!r} does not parse: {type(e).__name__}: {e}")
+        if len(got) != 1 or type(got[0]) is not cls:
+            raise Failure(f"inplace:parse-differs:{sig}", case, f"{what}: {text!r} parsed as {[str(i) for i in got]}")
+        return got[0]
+
+    p1 = parse1(text0, "first parse")
+    if p1 != ref:
+        raise Failure(f"inplace:parse-differs:{sig}", case, f"first parse: {text0!r} parsed as {str(p1)!r}")
+    # 1. the parse result is printed (logged) and then adapted in place
+    _touch(p1, route)
+    _apply_mask(p1, cls, vals2, mask)
+    if p1 != exp:
+        return text0  # editing in place is not a supported way to change this class: nothing to check
+    text_p1 = str(p1)
+    if text_p1 != text_exp:
+        raise Failure(f"inplace:stale-print:parse-result:{sig}", case, f"parse result of {text0!r} was printed ({route}), its array operand edited in place {mask} to that of {text_exp!r}, but it prints {text_p1!r}")
+    if parse1(text_p1, "parse result edited in place, printed") != p1:
+        raise Failure(f"inplace:stale-print:parse-result:{sig}", case, f"edited parse result prints {text_p1!r}, which parses to a different instruction")
+    # 2. the untouched instruction still prints the same text, and that text still parses to the same instruction
+    if str(instr) != text0 or instr != ref:
+        raise Failure(f"inplace:edit-of-parse-result-leaks:{sig}", case, f"instruction printing {text0!r} prints {str(instr)!r} after the result of parsing its text was edited in place")
+    p2 = parse1(text0, "second parse of the same text")
+    if p2 != ref or p2 != instr:
+        raise Failure(f"inplace:reparse-differs:{sig}", case, f"{text0!r} parsed as {str(p2)!r} after the result of an earlier parse of the same text was edited in place {mask} (to {text_exp!r})")
+    # 3. the printed instruction itself is adapted in place and printed again
+    _apply_mask(instr, cls, vals2, mask)
+    text1 = str(instr)
+    if instr != exp or text1 != text_exp:
+        raise Failure(f"inplace:stale-print:{sig}", case, f"printed ({route}) as {text0!r}, array operand edited in place {mask} to that of {text_exp!r}, but it prints {text1!r}")
+    if parse1(text1, "instruction edited in place, printed") != instr:
+        raise Failure(f"inplace:stale-print:{sig}", case, f"after the in-place edit it prints {text1!r}, which parses to a different instruction")
+    return text0 + " -> " + text1
+
+
+def st_subroutine_arrays(fname: str, max_len: int):
+    """subroutines in which instructions with array operands are frequent"""
+    from hypothesis import strategies as st
+
+    return st.fixed_dictionaries(
+        {
+            "flavour": st.just(fname),
+            "app_id": st.integers(0, 65535),
+            "version": st.tuples(g.st_u8, g.st_u8).map(list),
+            "instrs": st.lists(g.st_instr(fname) | st_instr_with(fname, ("entry", "slice")), min_size=1, max_size=max_len),
+        }
+    )
+
+
+def array_positions(j):
+    """[instruction position, operand position, field] of everything that can be edited in place in a subroutine"""
+    out = []
+    for ipos, (clsname, _m, _v) in enumerate(j["instrs"]):
+        cls = g.class_by_name(j["flavour"], clsname)
+        for pos, (_n, k) in enumerate(g.shape_of(cls)):
+            for f in _ARRAY_FIELDS.get(k, []):
+                out.append([ipos, pos, f])
+    return out
+
+
+def check_sub_history(j, edits, route: str) -> int:
+    """whole subroutines: print - parse - print the parse result - edit some of its array operands in place; then (a) the
+    edited subroutine prints text that parses back to it and is a fixed point of text->binary->text, (b) the text printed
+    first still parses to the original instructions and is still a fixed point.  `edits` = [[instr pos, operand pos, field,
+    json value], ...]"""
+    from netqasm.lang.parsing import deserialize
+
+    fname = j["flavour"]
+    pre = f"# NETQASM {j['version'][0]}.{j['version'][1]}\n# APPID {j['app_id']}\n"
+    sub = g.build_subroutine(j)
+    text1 = "\n".join(str(i) for i in sub.instructions)
+    case = {"kind": "sub-history", **j, "edits": edits, "route": route}
+
+    def parse(text, what):
+        try:
+            return _parse(pre + text, fname)
+        except Exception as e:
+            raise Failure("sub-history:parse-raises", case, f"{what} does not parse: {type(e).__name__}: {e}")
+
+    def fixed_point(parsed, text, what, sig):
+        back = deserialize(bytes(parsed), flavour=g.FLAVOURS[fname]())
+        text3 = "\n".join(str(i) for i in back.instructions)
+        if text3 != text:
+            raise Failure(sig, case, f"{what}: text->binary->text changed:\n{text[:500]}\n---\n{text3[:500]}")
+
+    s2 = parse(text1, "printed subroutine")
+    if s2.instructions != sub.instructions:
+        raise Failure("sub-history:parse-differs", case, "printed subroutine parses to different instructions")
+    if route == "subroutine":
+        str(s2)
+    else:
+        for i in s2.instructions:
+            _touch(i, route)
+    # expected state after the edits, built from fresh objects
+    import copy
+
+    j_exp = copy.deepcopy(j)
+    for ipos, pos, field, v in edits:
+        j_exp["instrs"][ipos][2][pos][_JSON_KEY[field]] = v
+        cls = g.class_by_name(fname, j["instrs"][ipos][0])
+        _edit_in_place(getattr(s2.instructions[ipos], g.shape_of(cls)[pos][0]), field, v)
+    exp = g.build_subroutine(j_exp)
+    n_changed = sum(1 for a, b in zip(exp.instructions, sub.instructions) if a != b)
+    if s2.instructions == exp.instructions:
+        text2 = "\n".join(str(i) for i in s2.instructions)
+        text_exp = "\n".join(str(i) for i in exp.instructions)
+        if text2 != text_exp:
+            bad = [(a, b) for a, b in zip(text2.splitlines(), text_exp.splitlines()) if a != b]
+            raise Failure("sub-history:stale-print", case, f"parsed subroutine was printed ({route}), {len(edits)} array operands edited in place; {len(bad)} lines are not those of the instructions as they are now, e.g. prints {bad[0][0]!r}, is {bad[0][1]!r}")
+        s5 = parse(text2, "subroutine printed after in-place edits")
+        if s5.instructions != s2.instructions:
+            raise Failure("sub-history:stale-print", case, "subroutine printed after in-place edits parses to different instructions")
+        fixed_point(s5, text2, "subroutine printed after in-place edits", "sub-history:stale-print:not-fixed-point")
+    # the text printed first: same meaning as before
+    if "\n".join(str(i) for i in sub.instructions) != text1:
+        raise Failure("sub-history:edit-of-parse-result-leaks", case, "the original subroutine prints differently after its parse result was edited in place")
+    s6 = parse(text1, "text printed first, parsed a second time")
+    if s6.instructions != sub.instructions:
+        bad = [(str(a), str(b)) for a, b in zip(sub.instructions, s6.instructions) if a != b]
+        raise Failure("sub-history:reparse-differs", case, f"after the result of the first parse was edited in place, the same text parses to different instructions, e.g. {bad[:2]}")
+    fixed_point(s6, text1, "text printed first, second parse", "sub-history:reparse-not-fixed-point")
+    return n_changed
+
+
 def shard(ctx: Ctx) -> None:
     stt = ctx.stats
     n = 4000 if ctx.tier == "quick" else 20000
@@ -142,6 +398,41 @@ def shard(ctx: Ctx) -> None:
             check_sub(j)
 
         ctx.search(g.st_subroutine(fname, 15), body_sub, n // 12, name=f"c17-sub-{fname}", salt=10 + fi)
+
+        # numpy integers as immediate values (angles / constants computed with numpy)
+        def body_np(t, fname=fname):
+            (clsname, _mn, vals), data = t
+            cls = g.class_by_name(fname, clsname)
+            nptypes = [data.draw(st.sampled_from(np_types_for(v))) if k in ("u8", "i32") else None for (_n, k), v in zip(g.shape_of(cls), vals)]
+            text = check_nptype(fname, clsname, vals, nptypes)
+            stt.case("np|" + text + "|" + str(nptypes) + "|" + fname, True, [f"nptype:{fname}"] + sorted({"np." + x for x in nptypes if x}))
+
+        ctx.search(st.tuples(st_instr_with(fname, ("u8", "i32")), st.data()), body_np, n // 10, name=f"c17-nptype-{fname}", salt=30 + fi)
+
+        # array operands edited in place, on printed instructions and on parse results
+        def body_inplace(t, fname=fname):
+            (clsname, _mn, vals), data = t
+            cls = g.class_by_name(fname, clsname)
+            vals2 = data.draw(st.tuples(*[g.st_operand(k) for _, k in g.shape_of(cls)]).map(list))
+            mask = data.draw(st_mask(cls))
+            route = data.draw(st.sampled_from(PRINT_ROUTES))
+            text = check_inplace(fname, clsname, vals, vals2, mask, route)
+            stt.case("inplace|" + text + "|" + fname, _merged(cls, vals, vals2, mask) != vals, [f"inplace:{fname}", "inplace-route:" + route] + ["inplace-field:" + f for _p, f in mask])
+
+        ctx.search(st.tuples(st_instr_with(fname, ("entry", "slice")), st.data()), body_inplace, n // 10, name=f"c17-inplace-{fname}", salt=40 + fi)
+
+        def body_sub_history(t, fname=fname):
+            j, data = t
+            where = array_positions(j)
+            edits = []
+            if where:
+                for ipos, pos, f in data.draw(st.lists(st.sampled_from(where), min_size=1, max_size=6, unique_by=lambda x: tuple(x))):
+                    edits.append([ipos, pos, f, data.draw(g.st_i32 if f == "address" else g.st_reg)])
+            route = data.draw(st.sampled_from(PRINT_ROUTES))
+            n_changed = check_sub_history(j, edits, route)
+            stt.case(["sub-history", j, edits], n_changed >= 1, [f"sub-history:{fname}", "sub-history-route:" + route])
+
+        ctx.search(st.tuples(st_subroutine_arrays(fname, 10), st.data()), body_sub_history, n // 25, name=f"c17-sub-history-{fname}", salt=50 + fi)
     if ctx.shard == 0:
         # the same printed line / the same 7 bytes mean different instructions in different flavours: text -> binary -> text for
         # every class with all-zero operands, flavours alternating in opcode order (both orders)
@@ -194,6 +485,12 @@ def replay(case):
             return None  # order-dependent by construction: replayed by the run itself
         if case["kind"] == "reprint":
             check_reprint(case["flavour"], case["cls"], case["vals"], case["vals2"])
+        elif case["kind"] == "nptype":
+            check_nptype(case["flavour"], case["cls"], case["vals"], case["nptypes"])
+        elif case["kind"] == "inplace":
+            check_inplace(case["flavour"], case["cls"], case["vals"], case["vals2"], case["mask"], case["route"])
+        elif case["kind"] == "sub-history":
+            check_sub_history({k: case[k] for k in ("flavour", "app_id", "version", "instrs")}, case["edits"], case["route"])
         elif case["kind"] == "instr":
             check_single(case["flavour"], case["cls"], case["vals"])
         else:
